@@ -327,6 +327,8 @@ var c19PrefCode = map[string]int{"rsa": 0, "p256": 1, "p384": 2}
 func TestVerif_C19(t *testing.T) {
 	res := newVerifResult("the real setupCerts for every key preference (rsa, p256, p384) x agent present (twice in a row, the agent pre-loaded with an old certificate and a plain key under the client's label and a certificate under another label) / absent (key files), against the real keymasterd handlers over TLS (HTTP/2), password login, plus runs against a daemon that asks for a local TOTP code (typed into the prompt when the client asks); every request recorded at the transport; non-trivial = the run obtained its certificates; distinct by (preference, agent, run)")
 	defer ioutil.WriteFile(filepath.Join(verifOut(), "c19_client_done"), []byte("done"), 0644)
+	// WHICH agent (needs no server: done while the server harness comes up)
+	icases, iidx := c19cEnvCases(t, res, testlogger.New(t))
 	// the server harness writes its address when it is up
 	var info map[string]string
 	deadline := time.Now().Add(4 * time.Minute)
@@ -683,13 +685,165 @@ func TestVerif_C19(t *testing.T) {
 	}
 	var sb strings.Builder
 	sb.WriteString(coqCaseHeader)
-	sb.WriteString("From KM Require Import Base.Cases Model.Client.\n")
+	sb.WriteString("From KM Require Import Base.Cases Model.Client Model.ClientEnv.\n")
 	sb.WriteString("Definition runs : list (N * bool * bool * bool * bool * string * list (N * list N) * list (string * N * bool) * list string) := [\n" + strings.Join(cases, ";\n") + "\n].\n")
 	sb.WriteString("Definition c19_mismatches := Eval vm_compute in mismatches (fun c => negb (run_matches c)) runs.\nPrint c19_mismatches.\n")
+	// the property predicate on the observation: private material in a recorded request, or a private file open to others
+	sb.WriteString("Definition c19_violating := Eval vm_compute in mismatches (fun c => negb (run_matches c) && run_violates c) runs.\nPrint c19_violating.\n")
+	sb.WriteString("Definition icases : list icase := [\n" + strings.Join(icases, ";\n") + "\n].\n")
+	sb.WriteString("Definition c19i_bad (c : icase) : bool := negb (icheck c).\n")
+	sb.WriteString("Definition c19i_mismatches := Eval vm_compute in mismatches c19i_bad icases.\nPrint c19i_mismatches.\n")
+	sb.WriteString("Definition c19i_violating := Eval vm_compute in mismatches (fun c => c19i_bad c && iviolates c) icases.\nPrint c19i_violating.\n")
+	sb.WriteString("Definition c19i_violating_mode := Eval vm_compute in mismatches (fun c => c19i_bad c && iviolates_mode c) icases.\nPrint c19i_violating_mode.\n")
+	sb.WriteString("Definition c19i_ncases := Eval vm_compute in length icases.\nPrint c19i_ncases.\n")
 	sb.WriteString("Definition c19_ncases := Eval vm_compute in length runs.\nPrint c19_ncases.\n")
 	if err := ioutil.WriteFile(filepath.Join(verifOut(), "CasesC19.v"), []byte(sb.String()), 0644); err != nil {
 		t.Fatal(err)
 	}
 	ioutil.WriteFile(filepath.Join(verifOut(), "CasesC19.idx"), []byte(strings.Join(idx, "\n")+"\n"), 0644)
+	ioutil.WriteFile(filepath.Join(verifOut(), "CasesC19I.idx"), []byte(strings.Join(iidx, "\n")+"\n"), 0644)
 	res.write(t, "TestVerif_C19")
+}
+
+// ---------------------------------------------------------------- which agent
+
+// the client's real insertSSHCertIntoAgentORWriteToFilesystem in every agent environment situation, decoy agents
+// listening where agents conventionally live (harness/base/c19env.go): the private key must be in the agent
+// SSH_AUTH_SOCK names when that one works, else in the 0600 key file, and in no other agent.
+// Observed: the listing of every agent of the scene and the files under HOME; Coq: Model/ClientEnv.v install_ssh_env.
+func c19cEnvCases(t *testing.T, res *verifResult, logger *testlogger.Logger) (cases, idx []string) {
+	rng := verifRand()
+	root, cleanup, err := c19eRoot()
+	if err != nil {
+		t.Fatal(err)
+	}
+	defer cleanup()
+	oldUmask := syscall.Umask(022)
+	defer syscall.Umask(oldUmask)
+	caKey, _ := ecdsa.GenerateKey(elliptic.P256(), rand.Reader)
+	caSigner, _ := ssh.NewSignerFromKey(caKey)
+	serial := uint64(100)
+	mkCert := func(priv crypto.Signer) *ssh.Certificate {
+		pub, _ := ssh.NewPublicKey(priv.Public())
+		serial++
+		c := &ssh.Certificate{Key: pub, Serial: serial, CertType: ssh.UserCert, KeyId: "verif", ValidPrincipals: []string{"alice"},
+			ValidAfter: uint64(time.Now().Unix() - 60), ValidBefore: uint64(time.Now().Unix() + 3600)}
+		c.SignCert(rand.Reader, caSigner)
+		return c
+	}
+	newKey := func(suffix string) crypto.Signer {
+		switch suffix {
+		case "p256":
+			k, _ := ecdsa.GenerateKey(elliptic.P256(), rand.Reader)
+			return k
+		case "p384":
+			k, _ := ecdsa.GenerateKey(elliptic.P384(), rand.Reader)
+			return k
+		}
+		_, k, _ := ed25519.GenerateKey(rand.Reader)
+		return k
+	}
+	suffixes := []string{"p256", "ed25519", "p384"}
+	type plan struct {
+		situation string
+		all       bool
+	}
+	var plans []plan
+	for _, s := range c19eSituations {
+		plans = append(plans, plan{s, true})
+	}
+	extra := 10
+	if verifThorough() {
+		extra = 150
+	}
+	for i := 0; i < extra; i++ {
+		plans = append(plans, plan{c19eSituations[rng.Intn(len(c19eSituations))], false})
+	}
+	user := "alice"
+	for id, pl := range plans {
+		suffix := suffixes[(id+rng.Intn(2))%len(suffixes)]
+		label := FilePrefix + "-" + suffix + "-" + user
+		mask := rng.Intn(1 << 11)
+		if pl.all {
+			mask = 1<<11 - 1
+		}
+		preload := func(kr agent.Agent, designated bool) {
+			k1 := newKey("p256")
+			kr.Add(agent.AddedKey{PrivateKey: k1, Certificate: mkCert(k1), Comment: label})
+			if designated || rng.Intn(2) == 0 {
+				k2 := newKey("p256")
+				kr.Add(agent.AddedKey{PrivateKey: k2, Comment: label})
+			}
+		}
+		sc, err := newC19eScene(root, id, pl.situation, func(i int) bool { return mask&(1<<uint(i)) != 0 }, preload)
+		if err != nil {
+			t.Errorf("scene %d: %v", id, err)
+			res.hit(verifHit{Key: "C19:harness:scene", Oracle: "harness", What: "could not build the agent scene: " + err.Error(), Case: pl.situation})
+			continue
+		}
+		keyPath := filepath.Join(sc.home, ".ssh", FilePrefix+"-"+suffix)
+		existing := ""
+		if id%3 == 1 && sc.designatedAgent() == nil {
+			// a key file that others can read is already there (only where the client is going to write it: with a
+			// working agent the client does not touch key files, an old one would stay as the harness made it)
+			ioutil.WriteFile(keyPath, []byte("an older key file\n"), 0644)
+			os.Chmod(keyPath, 0644)
+			existing = " existing key file 0644"
+		}
+		priv := newKey(suffix)
+		cert := mkCert(priv)
+		world, env, desc := sc.coqWorld(), sc.coqEnv(), sc.describe()+existing
+		callErr := insertSSHCertIntoAgentORWriteToFilesystem(ssh.MarshalAuthorizedKey(cert), priv, FilePrefix+"-"+suffix, user, keyPath, false, logger)
+		n := c19eEntry{label, c19eBlobID(cert.Marshal()), true}
+		cs := map[string]interface{}{"situation": pl.situation, "function": "insertSSHCertIntoAgentORWriteToFilesystem", "key_suffix": suffix, "scene": desc, "reported_error": fmt.Sprint(callErr)}
+		sc.oracle(res, "client insertSSHCertIntoAgentORWriteToFilesystem", n.blob, cs)
+		des := sc.designatedAgent()
+		inDesignated := false
+		if des != nil {
+			for _, e := range c19eListing(des.rec.Agent) {
+				if e == n {
+					inDesignated = true
+				}
+			}
+		}
+		var files []c19File
+		filepath.Walk(sc.home, func(p string, fi os.FileInfo, err error) error {
+			if err != nil || fi.IsDir() || fi.Mode()&os.ModeSocket != 0 {
+				return nil
+			}
+			rel, _ := filepath.Rel(sc.home, p)
+			files = append(files, c19File{rel, fi.Mode().Perm(), c19LooksPrivate(p)})
+			return nil
+		})
+		sort.Slice(files, func(i, j int) bool { return files[i].rel < files[j].rel })
+		inFile := false
+		if k := c19ParsePrivateFile(keyPath); k != nil {
+			if sg, ok := k.(crypto.Signer); ok {
+				inFile = fmt.Sprint(sg.Public()) == fmt.Sprint(priv.Public())
+			} else if pk, ok := k.(*ed25519.PrivateKey); ok {
+				inFile = fmt.Sprint(pk.Public()) == fmt.Sprint(priv.Public())
+			}
+		}
+		var cfiles []string
+		for _, f := range files {
+			if f.private && f.mode&0077 != 0 {
+				res.hit(verifHit{Key: "C19:key-file-mode:" + f.rel, Oracle: "a private key file is readable by others", Kind: "input",
+					What: fmt.Sprintf("%s has mode %o after insertSSHCertIntoAgentORWriteToFilesystem; %s", f.rel, f.mode, desc), Case: cs, Observed: fmt.Sprintf("%o", f.mode)})
+			}
+			cfiles = append(cfiles, fmt.Sprintf("(\"%s\"%%string, %d%%N, %s)", f.rel, int(f.mode), coqBool(f.private)))
+		}
+		if callErr != nil {
+			t.Errorf("insertSSHCertIntoAgentORWriteToFilesystem: %v (%s)", callErr, desc)
+			res.hit(verifHit{Key: "C19:harness:install", Oracle: "harness", What: "insertSSHCertIntoAgentORWriteToFilesystem failed: " + callErr.Error(), Case: cs})
+		} else if !inDesignated && !inFile {
+			res.hit(verifHit{Key: "C19:key-neither-in-designated-agent-nor-file:" + pl.situation, Oracle: "after a successful installation the private key is in the agent SSH_AUTH_SOCK names or in the 0600 key file", Kind: "input",
+				What: fmt.Sprintf("success reported, but the private key is neither in the designated agent (working: %v) nor in %s; %s", des != nil, keyPath, desc), Case: cs})
+		}
+		cases = append(cases, fmt.Sprintf(" (%s,\n   %s,\n   \"%s\"%%string, \"%s\"%%string, %s,\n   %s,\n   [%s])", env, world, suffix, user, n.coq(), sc.coqObserved(), strings.Join(cfiles, "; ")))
+		idx = append(idx, fmt.Sprintf("%d\tinsertSSHCertIntoAgentORWriteToFilesystem key=%s %s -> error=%v in-designated-agent=%v in-key-file=%v files=%v", len(idx), suffix, desc, callErr, inDesignated, inFile, files))
+		res.bump("which-agent-client:" + pl.situation)
+		res.eval(fmt.Sprintf("which-agent-client|%s|%s|%v", pl.situation, suffix, existing != ""), des == nil)
+		sc.close()
+	}
+	return cases, idx
 }
